@@ -27,8 +27,19 @@ def observe(cfg, origin=0, variant=0):
             f = NaiveForecaster(strategy=cfg["strategy"], sp=cfg["sp"], window_length=cfg["w"] or None)
         else:
             f = PolynomialTrendForecaster(degree=cfg["deg"], with_intercept=bool(cfg["icpt"]))
+        if variant % 5 == 4:
+            # the same object was configured differently, fitted, and re-parameterised with set_params before this fit
+            if cfg["kind"] == "naive":
+                g = NaiveForecaster(strategy="mean" if cfg["strategy"] != "mean" else "last", sp=1, window_length=None)
+            else:
+                g = PolynomialTrendForecaster(degree=cfg["deg"] + 1, with_intercept=not bool(cfg["icpt"]))
+            try:
+                g.fit(ys.iloc[: max(3, len(ys) - 1)])
+            except Exception:
+                pass
+            f = g.set_params(**f.get_params(deep=False))
         fh = list(cfg["fh"])
-        if variant % 3 == 1:
+        if variant % 3 == 1 or variant % 5 == 4:         # (re-fitting WITHOUT a horizon is rejected by the library, DESIGN 10.2)
             f.fit(ys, fh=fh)
             p = f.predict()
         else:
@@ -86,7 +97,9 @@ def delegate_checks(ctx):
                         n_ok += 1
             # AutoETS (auto=False) against ETSModel; Theta's SES level against SimpleExpSmoothing
             for o in (dict(), dict(trend="add"), dict(error="mul", trend="add", damped_trend=True),
-                      dict(seasonal="add", sp=4)):
+                      dict(seasonal="add", sp=4),
+                      dict(trend="add", initialization_method="known", initial_level=float(yv[0]), initial_trend=0.7),
+                      dict(initialization_method="known", initial_level=float(yv[0]) + 1.5)):
                 for fh in fhs[:3]:
                     ctx.evaluations += 1
                     sc = {"delegate": "AutoETS", "options": {k: str(v) for k, v in o.items()}, "fh": fh,
@@ -188,7 +201,7 @@ def run(ctx):
         origin = [0, 5, -3][i % 3]
         obs = observe(cfg, origin, i)
         ctx.evaluations += 1
-        sc = {"cfg": cfg, "origin": origin, "variant": i % 6}
+        sc = {"cfg": cfg, "origin": origin, "variant": i % 60}
         if "crash" in obs:
             ctx.violation(sc, "crash: " + obs["crash"])
             continue
@@ -208,7 +221,7 @@ def run(ctx):
         obs = observe(cfg, origin, t)
         ctx.evaluations += 1
         if "crash" in obs:
-            ctx.violation({"cfg": cfg, "origin": origin, "variant": t % 6}, "crash: " + obs["crash"])
+            ctx.violation({"cfg": cfg, "origin": origin, "variant": t % 60}, "crash: " + obs["crash"])
             continue
         recs.append({"tid": t, "cfg": cfg, "obs": {"index": obs["index"], "vals": obs["vals"]}, "raw": obs["raw"],
                      "origin": origin})
@@ -217,7 +230,7 @@ def run(ctx):
     ctx.traces += len(recs) - len(rejects)
     for rec in recs:
         if rec["tid"] in rejects:
-            ctx.violation({"cfg": rec["cfg"], "origin": rec["origin"], "variant": rec["tid"] % 6},
+            ctx.violation({"cfg": rec["cfg"], "origin": rec["origin"], "variant": rec["tid"] % 60},
                           "code->spec: TLC rejects forecast %s (%s)" % (rec["raw"], rejects[rec["tid"]]))
     delegate_checks(ctx)
     return ctx.finish(
